@@ -15,6 +15,7 @@
  */
 #pragma once
 
+#include <unifex/detail/verif_hooks.hpp>
 #include <unifex/config.hpp>
 #if !UNIFEX_NO_EPOLL
 
@@ -416,6 +417,7 @@ class io_epoll_context::schedule_at_sender {
     }
 
     void request_stop_remote() noexcept {
+      UNIFEX_VERIF_POINT(436);
       auto oldState = this->state_.fetch_add(
           schedule_at_operation::cancel_pending_flag,
           std::memory_order_acq_rel);
@@ -667,6 +669,7 @@ class io_epoll_context::read_sender {
     }
 
     void request_stop() noexcept {
+      UNIFEX_VERIF_POINT(437);
       auto oldState = this->state_.fetch_add(
           io_epoll_context::read_sender::operation<
               Receiver>::cancel_pending_flag,
@@ -896,6 +899,7 @@ class io_epoll_context::write_sender {
     }
 
     void request_stop() noexcept {
+      UNIFEX_VERIF_POINT(438);
       auto oldState = this->state_.fetch_add(
           io_epoll_context::write_sender::operation<
               Receiver>::cancel_pending_flag,
